@@ -22,6 +22,9 @@ ck.regen()
 mods = ck.props_modules()
 if mods:
     ck.lean(mods)
+    ck.require_theorems(['LbzVerif.Props.C15.stream_flip_rejected',
+                         'LbzVerif.Props.C15.block_flip_rejected',
+                         'LbzVerif.Props.C15.blockCrc_captured'])
 exe = ck.build_lbzip2(asan=False)
 evals = 0
 fields_total = 0
